@@ -886,6 +886,8 @@ package grpctunnel
 //@   at call removeStream#1
 //@     assert[C14] @ownentry arg1 == st.streamID && arg0 == st.ch
 //@   loop 1 invariant[C02] @targets held(st.metaMu) && st.trailers == old(trailers) && won(st.done) && !isClosed(st.doneSignal) && (st.gotHeaders <==> isClosed(st.gotHeadersSignal))
+//@   loop 1 invariant[C02] @filled  forall j int :: 0 <= j && j <= rangeindex && j < len(st.trailersTargets) ==> *st.trailersTargets[j] == old(trailers)
+//@   ensures[C02] @calloptions result ==> forall j int :: 0 <= j && j < len(st.trailersTargets) ==> *st.trailersTargets[j] == old(trailers)
 //@   ensures[C07]     @winner   result <==> won(st.done)
 //@   ensures[C07]     @loser    !result ==> count("call:removeStream") == 0 && count("call:close") == 0 && count("close") == 0 && count("cancel()") == 0 && count("acquired") == 0
 //@   ensures[C02,C07] @done     result ==> isClosed(st.doneSignal) && isClosed(st.gotHeadersSignal) && st.trailers == old(trailers) && st.gotHeaders
@@ -926,8 +928,25 @@ package grpctunnel
 //@     ghost acceptErr = result
 //@   at call finishStream#1
 //@     assert[C09] @settings old(frame) is *tunnelpb.ServerToClient_Settings && arg1 != nil && arg2 == nil
+//@   ghost tl metadata.MD = nil
+//@   ghost hd metadata.MD = nil
+//@   ghost sp *status.Status = nil
+//@   ghost serr error = nil
+//@   at aftercall fromProto#1
+//@     ghost hd = result
+//@   at aftercall fromProto#2
+//@     ghost tl = result
+//@   at aftercall FromProto#1
+//@     ghost sp = result
+//@   at call Err#1
+//@     assert[C02] @statuserr arg0 == sp
+//@   at aftercall Err#1
+//@     ghost serr = result
+//@   at store headers#1
+//@     assert[C02] @hdrstored arg1 == hd
 //@   at call finishStream#2
 //@     assert[C02] @closestream old(frame) is *tunnelpb.ServerToClient_CloseStream
+//@     assert[C02,C07] @outcome arg0 == st && arg1 == serr && arg2 == tl
 //@   at call updateWindow#1
 //@     assert[C05,C06] @credit old(frame) is *tunnelpb.ServerToClient_WindowUpdate && arg0 == as(old(frame), *tunnelpb.ServerToClient_WindowUpdate).WindowUpdate
 //@   at call finishStream#3
@@ -944,7 +963,9 @@ package grpctunnel
 //@     assert[C02] @statussrc arg0 == as(old(frame), *tunnelpb.ServerToClient_CloseStream).CloseStream.Status
 //@   at close#1
 //@     assert[C02] @hdronce !isClosed(st.gotHeadersSignal) && held(st.metaMu)
-//@   loop 1 invariant[C02] @targets held(st.metaMu) && st.gotHeaders && !isClosed(st.gotHeadersSignal)
+//@     assert[C02] @hdrpublished st.headers == hd && forall j int :: 0 <= j && j < len(st.headersTargets) ==> *st.headersTargets[j] == hd
+//@   loop 1 invariant[C02] @targets held(st.metaMu) && st.gotHeaders && !isClosed(st.gotHeadersSignal) && st.headers == hd
+//@   loop 1 invariant[C02] @hdrfilled forall j int :: 0 <= j && j <= rangeindex && j < len(st.headersTargets) ==> *st.headersTargets[j] == hd
 //@   ensures[C07,C09] @niltarget st == nil ==> count("call:finishStream") == 0 && count("call:accept") == 0 && count("call:updateWindow") == 0 && count("close") == 0
 //@   ensures[C03]     @once      count("call:finishStream") <= 1
 //@   locks st.ch.mu, st.metaMu
@@ -1605,7 +1626,15 @@ package grpctunnel
 //@   invariant[C09] ingestMu : @chanorder isClosed(ch) ==> isClosed(closed)
 //@   invariant wf : ch != nil && closed != nil && ch != closed
 
+// Revision zero: the frame itself is handed to the consumer through r.ch, in
+// arrival order (accept runs under ingestMu), and is dropped only when the
+// receiver has been closed; a full channel blocks the hand-off, never drops.
 //@ func (*noFlowControlReceiver).accept
+//@   at select#1
+//@     assert[C01] @closedprobe arg0 == r.closed && !blocking
+//@   at select#2
+//@     assert[C01,C13] @handoff arg0 == r.ch && arg1 == item && arg2 == r.closed && blocking
+//@     assert[C01,C15] @ordered held(r.ingestMu)
 //@   assigns nothing
 //@   ensures[C06] @errors result == nil
 //@   ensures[C04,C09] @cancellable count("blocking") <= 3
@@ -1622,6 +1651,9 @@ package grpctunnel
 //@   assigns chan(r.closed), chan(r.ch)
 
 //@ func (*noFlowControlReceiver).dequeue
+//@   at recv#1
+//@     assert[C01] @source recv == r.ch
+//@   ensures[C01] @once count("chanrecv") == 1
 //@   assigns nothing
 //@   nopanic[C09]
 
